@@ -80,3 +80,77 @@ Print Assumptions C06_eq_zones_behave_same.
 Theorem C06_bisect_right_sorted : forall l x, sortedb l = true -> bisect_right l x = Some (count_le l x).
 Proof. exact bisect_right_sorted. Qed.
 Print Assumptions C06_bisect_right_sorted.
+From V Require Import tzfile.TzGenLib gen.TzGen tzfile.TzGenThm tzfile.TzGenericModel tzfile.TzBeforeThm.
+
+(* ---- regenerated model = hand model (coq/gen/TzGen.v is re-translated from /repo on every run) ---- *)
+Theorem C06_gen_find_last_transition : forall d dt b, gen_find_last_transition d dt b = find_last d (fst dt) b.
+Proof. exact gen_find_last_transition_lemma. Qed.
+Print Assumptions C06_gen_find_last_transition.
+
+Theorem C06_gen_get_ttinfo : forall d idx, shape d -> gen_get_ttinfo d idx = Ok (get_ttinfo d idx).
+Proof. exact gen_get_ttinfo_lemma. Qed.
+Print Assumptions C06_gen_get_ttinfo.
+
+Theorem C06_gen_is_ambiguous : forall d dt idx, shape d -> (forall i, idx = Some i -> i < len (d_wall d)) ->
+  gen_is_ambiguous d dt idx = is_ambiguous d (fst dt) idx.
+Proof. exact gen_is_ambiguous_lemma. Qed.
+Print Assumptions C06_gen_is_ambiguous.
+
+Theorem C06_gen_resolve_ambiguous_time : forall d dt, shape d ->
+  gen_resolve_ambiguous_time d dt = resolve_idx d (fst dt) (snd dt).
+Proof. exact gen_resolve_ambiguous_time_lemma. Qed.
+Print Assumptions C06_gen_resolve_ambiguous_time.
+
+Theorem C06_gen_find_ttinfo : forall d dt, shape d -> gen_find_ttinfo d dt = find_ttinfo d (fst dt) (snd dt).
+Proof. exact gen_find_ttinfo_lemma. Qed.
+Print Assumptions C06_gen_find_ttinfo.
+
+Theorem C06_gen_fromutc : forall d dt, shape d -> gen_fromutc d dt = fromutc d (fst dt).
+Proof. exact gen_fromutc_lemma. Qed.
+Print Assumptions C06_gen_fromutc.
+
+Theorem C06_gen_utcoffset : forall d dt, shape d -> gen_utcoffset d dt = utcoffset d (fst dt) (snd dt).
+Proof. exact gen_utcoffset_lemma. Qed.
+Print Assumptions C06_gen_utcoffset.
+
+Theorem C06_gen_dst : forall d dt, shape d -> gen_dst d dt = dst d (fst dt) (snd dt).
+Proof. exact gen_dst_lemma. Qed.
+Print Assumptions C06_gen_dst.
+
+Theorem C06_gen_tzname : forall d dt, shape d -> gen_tzname d dt = tzname d (fst dt) (snd dt).
+Proof. exact gen_tzname_lemma. Qed.
+Print Assumptions C06_gen_tzname.
+
+Theorem C06_gen_datetime_to_timestamp : forall dt, gen_datetime_to_timestamp dt = fst dt.
+Proof. exact gen_datetime_to_timestamp_lemma. Qed.
+Print Assumptions C06_gen_datetime_to_timestamp.
+
+Theorem C06_gen_shape_of_decoded : forall d, good d = true -> shape d.
+Proof. exact good_shape. Qed.
+Print Assumptions C06_gen_shape_of_decoded.
+
+Theorem C06_gen_ttinfo_before : forall types, gen_ttinfo_before_index types = before_index types.
+Proof. exact gen_ttinfo_before_lemma. Qed.
+Print Assumptions C06_gen_ttinfo_before.
+
+(* ... and build uses exactly that index for _ttinfo_before *)
+Theorem C06_gen_ttinfo_before_is_used : forall r d, build r = Ok d -> r_types r <> [] -> r_times r <> [] ->
+  d_before d = Some (nth_tt (d_tt d) (gen_ttinfo_before_index (mk_types (r_abbr r) (r_isstd r) (r_isgmt r) O (r_types r)))).
+Proof. exact build_before. Qed.
+Print Assumptions C06_gen_ttinfo_before_is_used.
+
+(* hand-modelled fragments (struct decoding and the derivation loops of _read_tzfile, one-line methods, glue)
+   are unchanged since the hand model was validated against them *)
+From V Require Import tzfile.TzPinC06.
+Theorem C06_pinned_fragments_unchanged :
+  pinned_tz_tzfile__read_tzfile = true /\
+  pinned_tz_tzfile___init__ = true /\
+  pinned_tz_tzfile__set_tzdata = true /\
+  pinned_tz_tzfile___eq__ = true /\
+  pinned_tz__ttinfo___eq__ = true /\
+  pinned_tz_tzfile___reduce_ex__ = true /\
+  pinned_zoneinfo_ZoneInfoFile___init__ = true /\
+  pinned_zoneinfo_ZoneInfoFile_get = true /\
+  pinned_zoneinfo_tzfile___reduce__ = true.
+Proof. exact pins_C06_lemma. Qed.
+Print Assumptions C06_pinned_fragments_unchanged.
